@@ -8,6 +8,7 @@ import (
 
 	"github.com/lindb/lindb/kv/table"
 	"github.com/lindb/lindb/kv/version"
+	"github.com/lindb/lindb/pkg/option"
 	"github.com/lindb/lindb/pkg/timeutil"
 )
 
@@ -122,3 +123,31 @@ func verifFamilyRollup(source, target int64) {
 
 func verifC04FamilyRollupMonth() { verifFamilyRollup(10000, 300000) }
 func verifC04FamilyRollupYear()  { verifFamilyRollup(10000, 3600000) }
+
+// The arithmetic harnesses assume that a target interval is a multiple of the source (write)
+// interval. That is what the database option has to guarantee: whatever intervals pass the real
+// option.Intervals.IsValid, every one of them is a multiple of the smallest.
+func verifC04IntervalsValid() {
+	n := 2
+	if verifThorough() {
+		n = 2 + verifChoose("n", 2)
+	}
+	ivs := make(option.Intervals, n)
+	for i := range ivs {
+		ivs[i] = option.Interval{Interval: timeutil.Interval(verifRange("interval", 1, 366*86400000)), Retention: timeutil.Interval(86400000)}
+	}
+	if ivs.IsValid() != nil {
+		verifReach("end")
+		return
+	}
+	smallest := ivs[0].Interval
+	for _, iv := range ivs {
+		if iv.Interval < smallest {
+			smallest = iv.Interval
+		}
+	}
+	for _, iv := range ivs {
+		verifAssert(iv.Interval%smallest == 0, "an accepted rollup interval is a multiple of the write interval")
+	}
+	verifReach("end")
+}
